@@ -1041,6 +1041,9 @@ func callBuiltin(caller *frame, callpos token.Pos, fn *ssa.Builtin, args []value
 		case []value:
 			return len(x)
 		case *omap:
+			if caller != nil {
+				caller.i.m.mapAccess(caller, x, false)
+			}
 			return x.len()
 		case chan value:
 			return len(x)
@@ -1129,6 +1132,7 @@ func callBuiltin(caller *frame, callpos token.Pos, fn *ssa.Builtin, args []value
 func rangeIter(fr *frame, x value, t types.Type) iter {
 	switch x := x.(type) {
 	case *omap:
+		fr.i.m.mapAccess(fr, x, false)
 		it := &omapIter{m: x}
 		if x != nil {
 			it.snap = append(it.snap, x.entries...)
